@@ -23,6 +23,9 @@ type Lane struct {
 	Chain  *fix.Chain
 	Pub    *fix.Node
 	Fol    *fix.Node
+	// Arb is a second node in block-publisher (arbitrating) configuration that follows the same
+	// chain as Fol: a publisher node also receives blocks from peers and must judge them alike
+	Arb    *fix.Node
 	M      *ledger.Model // mirrors the follower
 	Keys   []Key         // same secrets as Chain.Keys, usable with the reference signer
 	GenKey Key
@@ -65,6 +68,9 @@ func NewLane(tag, dir string, volume uint64, nKeys, nDist, nUnlocked int, tweak 
 		return nil, fmt.Errorf("open follower: %v", err)
 	}
 	l.Fol = fn
+	if an, err := c.Open(filepath.Join(dir, "arb.db"), true, true); err == nil {
+		l.Arb = an
+	}
 	l.M = ledger.New(ModelParams(c))
 	g, err := fn.V.GetSignedBlockBySeq(0)
 	if err != nil || g == nil {
@@ -86,6 +92,9 @@ func (l *Lane) Close() {
 	}
 	if l.Fol != nil {
 		l.Fol.Close()
+	}
+	if l.Arb != nil {
+		l.Arb.Close()
 	}
 }
 
@@ -185,6 +194,13 @@ func (l *Lane) SignBlock(b coin.Block, rng *rand.Rand) coin.SignedBlock {
 func (l *Lane) Commit(sb coin.SignedBlock) error {
 	if err := l.Fol.V.ExecuteSignedBlock(sb); err != nil {
 		return err
+	}
+	if l.Arb != nil {
+		if err := l.Arb.V.ExecuteSignedBlock(sb); err != nil {
+			// the publisher-mode follower left the chain: stop using it
+			l.Arb.Close()
+			l.Arb = nil
+		}
 	}
 	l.M.ApplyBlock(sb)
 	return nil
